@@ -434,7 +434,7 @@ class WSPool(interfaces.TokenInterface):
             if no_response:
                 return
 
-        message.opt.no_response = None
+            message.opt.no_response = None
 
         message.remote._send_message(message)
 
